@@ -35,6 +35,7 @@ class TooLarge(Exception):
 
 
 _ENG = None
+TOKENS = {}            # placeholder string -> Sym (symbolic numbers rendered into text files)
 ARRAY_CTX = [False]   # True while an elementwise array operation evaluates its scalar kernel
 
 
@@ -129,6 +130,7 @@ class Engine(object):
         self.path_notes = {}
         self.prefer = []
         self.decided = {}
+        TOKENS.clear()
 
     # -- solver helpers ------------------------------------------------------
     def _check(self, *assumptions):
@@ -452,9 +454,26 @@ class ModelEval(object):
 # Symbolic scalars
 # ----------------------------------------------------------------------------
 
+TOK = '\u00a7'
+
+
 class Sym(object):
     __slots__ = ('term', 'dt')
     __array_priority__ = 1000
+
+    def __str__(self):
+        """Rendering into text: a placeholder that int()/float() of the symbolic builtins decode
+        again (axiom: int(str(i)) == i, float(str(x)) == x up to the written precision)."""
+        k = '%s%d%s' % (TOK, len(TOKENS), TOK)
+        TOKENS[k] = self
+        return k
+
+
+def token_value(s):
+    """Sym for a string that is exactly one placeholder (surrounding blanks ignored), else None"""
+    if isinstance(s, str):
+        return TOKENS.get(s.strip())
+    return None
 
 
 def _bool_term(x):
